@@ -8,7 +8,7 @@ name=$1; subst=$2; pat=$3; shift 3; props="$*"
 VDIR=$(cd "$(dirname "$0")/.." && pwd)
 out=$VDIR/out/mutsweep_$name.txt; mkdir -p $VDIR/out; : > $out
 cd /repo
-sites=$(grep -rn --include=*.go -e "$pat" protocol internal/core transport macat/*.go *.go 2>/dev/null | grep -v "_test.go" | cut -d: -f1,2)
+sites=$(grep -rn --include=*.go -e "$pat" ${MUT_DIRS:-protocol internal/core transport macat/*.go *.go} 2>/dev/null | grep -v "_test.go" | cut -d: -f1,2)
 for site in $sites; do
   f=${site%%:*}; l=${site##*:}
   sc=/tmp/wt/mut_${name}_$$
@@ -19,7 +19,7 @@ for site in $sites; do
   plist="$props"
   if [ "$props" = "auto" ]; then
     case $f in
-      protocol/req/*|protocol/xreq/*) plist="C03 C04 C16 C18";;
+      protocol/req/*|protocol/xreq/*) plist="C03 C04 C16 C18 C10";;
       protocol/rep/*|protocol/xrep/*) plist="C05 C09 C16 C18";;
       protocol/respondent/*|protocol/xrespondent/*) plist="C05 C07 C09 C16";;
       protocol/surveyor/*|protocol/xsurveyor/*) plist="C07 C16 C18 C19";;
@@ -28,9 +28,9 @@ for site in $sites; do
       protocol/push/*|protocol/xpush/*|protocol/pull/*|protocol/xpull/*) plist="C02 C16 C18";;
       protocol/bus/*|protocol/xbus/*|protocol/star/*|protocol/xstar/*) plist="C08 C09 C16 C19";;
       internal/core/*) plist="C13 C14 C10 C12 C19";;
-      transport/inproc/*) plist="C01 C10 C12";;
-      transport/ws/*) plist="C15 C01 C19 C16";;
-      transport/*) plist="C01 C15 C16 C13";;
+      transport/inproc/*) plist="C01 C10 C12 C14";;
+      transport/ws/*) plist="C15 C01 C19 C16 C10";;
+      transport/*) plist="C01 C15 C16 C13 C10 C12";;
       message.go) plist="C01 C17";;
       device.go) plist="C19 C09";;
       macat/*) plist="C20";;
